@@ -21,6 +21,7 @@
   duplicates): nothing depends on the iteration order of the Python `set`.
 -/
 import ICG.Lemmas.EnvUndo
+import ICG.Lemmas.EnvReal
 import Mathlib.Algebra.Order.Group.Defs
 
 namespace ICG.C09
@@ -543,6 +544,31 @@ theorem unstep_unrevealed_raises [Zero α] [Neg α] [Sub α] [DecidableEq α] {P
   exact unstep_unknown_error compute gap (hinv.ex ▸ hc) hlt hk
 
 end progress
+
+/-! ### the model's own computers: no hypothesis about `compute` is left -/
+
+section real
+variable [Add α] [Sub α] [LinearOrder α] [Zero α] [Neg α]
+
+/-- the initial knowledge contains the minimal information ∅, N and the singletons -/
+def Params.Minimal (P : Params) : Prop := 0 ∈ P.ik ∧ 2 ^ P.n - 1 ∈ P.ik ∧ ∀ i, i < P.n → 2 ^ i ∈ P.ik
+
+omit [Zero α] [Neg α] in
+theorem computer_computeTotal (k : Computer) {P : Params} (hmin : P.Minimal) :
+    ComputeTotal (k.run : Table α → Except Err (Table α)) P := by
+  intro t hn hk
+  apply computer_total
+  rw [hn]
+  exact ⟨hk 0 hmin.1, hk _ hmin.2.1, fun i hi => hk _ (hmin.2.2 i hi)⟩
+
+/-- **C09 for the reference, the cached and the approximate computer** (`ComputeOK` is a theorem for them,
+    `ICG.computer_ok`): after any sequence of reset / step / unstep with valid actions the environment is in
+    the abstract state. -/
+theorem reach_inv_real (k : Computer) {gap : Table α → Except Err α} {P : Params} (hP : P.WF) {e : Env α}
+    {s : Spec α} (h : Reach (k.run : Table α → Except Err (Table α)) gap P e s) : Inv k.run P e s :=
+  reach_inv (computer_ok k) hP h
+
+end real
 
 /-! ### the hypotheses are satisfiable: a toy computer and gap, and a concrete environment -/
 
